@@ -637,6 +637,38 @@ def judge(case):
     return judge_fit(sc) if sc["op"] == "fit" else judge_train(sc)
 
 
+def judge_esn_raw_inputs(seed):
+    """ESN(use_raw_inputs=True) = Input >> reservoir >> readout plus Input >> readout: fit must equal the explicit procedure
+    (added by the lead; on the pinned tree the ESN node cannot even be fitted in this configuration - open finding)."""
+    import numpy as np
+    import reservoirpy as rpy
+    rpy.verbosity(0)
+    from reservoirpy.nodes import ESN, Reservoir, Ridge
+    rng = np.random.default_rng(seed)
+    X = rng.integers(-4, 5, size=(8, 2)) / 4.0
+    Y = rng.integers(-4, 5, size=(8, 1)) / 4.0
+    W = rng.integers(-2, 3, size=(3, 3)) / 8.0
+    Win = rng.integers(-2, 3, size=(3, 2)) / 2.0
+    tag = "raw%d_%d" % (seed, int(rng.integers(1 << 30)))
+    sc = {"op": "fit", "family": "esn-raw-inputs", "kind": "esn-raw-inputs", "seed": seed}
+    try:
+        e = ESN(reservoir=Reservoir(3, W=W, Win=Win, bias=np.zeros((3, 1)), lr=0.5, name=tag + "_r"), readout=Ridge(ridge=0.5, name=tag + "_o"),
+                use_raw_inputs=True, name=tag)
+        e.fit(X, Y)
+        r2 = Reservoir(3, W=W, Win=Win, bias=np.zeros((3, 1)), lr=0.5, name=tag + "_r2")
+        S = r2.run(X, reset=True)
+        ref = Ridge(ridge=0.5, name=tag + "_o2").fit(np.hstack([S, X]), Y)
+        got = np.vstack([np.asarray(e.readout.bias).reshape(1, -1), np.asarray(e.readout.Wout)])
+        exp = np.vstack([np.asarray(ref.bias).reshape(1, -1), np.asarray(ref.Wout)])
+        if got.shape != exp.shape or not (np.allclose(np.sort(got, axis=0), np.sort(exp, axis=0), atol=1e-9)):
+            return {"key": "fit:params-differ:esn-raw-inputs", "what": "ESN(use_raw_inputs=True).fit differs from the explicit procedure", "scenario": sc,
+                    "expected": exp.tolist(), "observed": got.tolist()}
+    except Exception as ex:  # noqa: BLE001
+        return {"key": "esn:use_raw_inputs-unusable", "what": "ESN(use_raw_inputs=True).fit raises %s: %s" % (type(ex).__name__, ex), "scenario": sc,
+                "expected": None, "observed": None}
+    return None
+
+
 def oracle(ctx, scale=1):
     rng = ctx.rng("oracle")
     cases = gen_cases(rng, ctx.n(60, 600) * scale)
@@ -647,7 +679,10 @@ def oracle(ctx, scale=1):
         dist[key] = dist.get(key, 0) + 1
         if v:
             out.append(v)
-    return {"evaluations": len(cases), "violations": out, "distribution": dist,
+    v = judge_esn_raw_inputs(ctx.seed)
+    if v:
+        out.append(v)
+    return {"evaluations": len(cases) + 1, "violations": out, "distribution": dist,
             "rule": "explicit node-by-node procedure with real nodes on fresh copies (Node.run / Ridge.fit(states, Y, warmup) / predictions fed "
                     "downstream) vs Model.fit / ESN.fit: Wout and bias of every readout to 1e-9; explicit per-timestep loop (Node.call upstream, "
                     "readout.train(x_t, y_t, call=False) on the steps selected by learn_every) vs Model.train with X as array and as mapping: "
@@ -656,5 +691,8 @@ def oracle(ctx, scale=1):
 
 def replay(payload):
     sc = payload["scenario"]
+    if sc.get("kind") == "esn-raw-inputs":
+        v = judge_esn_raw_inputs(sc.get("seed", 0))
+        return {"violates": bool(v), "detail": v}
     v = judge_fit(sc) if sc["op"] == "fit" else judge_train(sc)
     return {"violates": bool(v), "detail": v}
